@@ -56,6 +56,7 @@ class Registry:
             sn = safe_name(name)
             if sn != name:
                 sn = sn + "_" + _h(name)
+            sn = "u_" + sn          # never clash with SMT-LIB builtins (sin, cos, sqrt, str.len, ...)
             self.ufuncs[name] = z3.Function(sn, *sorts)
         return self.ufuncs[name]
 
@@ -357,7 +358,11 @@ def merge(cond, a, b):
             vb = va
         if not (is_scalar(va) and is_scalar(vb)):
             raise OutOfSubset("cannot merge optional non-scalars %r / %r" % (a, b))
-        return SymOpt(z3.simplify(z3.If(cond, na, nb)), merge(cond, va, vb))
+        isn = z3.simplify(z3.If(cond, na, nb))
+        mv = merge(cond, va, vb)
+        if z3.is_false(isn):
+            return mv
+        return SymOpt(isn, mv)
     if is_scalar(a) and is_scalar(b):
         s = join_sorts(sort_of_value(a), sort_of_value(b))
         return Sym(z3.If(cond, to_z3(a, sort=s), to_z3(b, sort=s)))
